@@ -10,6 +10,8 @@ C04.c  [flow] when the limit is hit the call still ends in exactly one active st
        their guards (C02.d + C01.a on the same interpretation).
 C04.d  [effect] a leftover request stays in core.request and its only consumers are the guarded loops (C02.b).
 C04.e  [type] the configured limit survives every order of the configuration setters.
+C04.g  [order] one processing per call: immediate changes are request + exactly one processRequest, update()/react() end in exactly one
+       (shares C02.c / C05.a) -- two bounded processings in one call are 2L rounds.
 C04.f  [cmp] a veto always takes, whoever casts it -- the root head (origin = the invalid id) included (shares the C03.e evaluation of
        cancelPendingTransition on the comparison domain of the origin id).
 """
@@ -200,6 +202,17 @@ def run(run):
             run.guard('all loops', all_loops, run, F, E)
             run.guard('requested writers', c02.requested_writers, run, F, E)
             run.guard('leftover request survives', c02.leftover_request_survives, run, F, E, 'C04.d')
+            # "at most L rounds per call": every call processes requests exactly once -- immediate changes are request + one processing,
+            # update()/react() end in one processing (the order rules of C02.c / C05.a)
+            run.guard('immediate', c02.immediate, run, F, E)
+            run.relabel('C02.c', 'C04.g')
+            from rules import c05 as _c05
+            plans_ = facts.cfg_has(c, 'P')
+            for fn_ in F.find('R_', 'update'):
+                run.guard('check entry', _c05.check_entry, run, F, E, fn_, _c05.UPDATE_SEQ, plans_)
+            for fn_ in F.find('R_', 'react'):
+                run.guard('check entry', _c05.check_entry, run, F, E, fn_, _c05.REACT_SEQ, plans_)
+            run.relabel('C05.a', 'C04.g')
             # "chosen among the requests that passed their guards": a veto always takes, whoever casts it (C03.e evaluation)
             from rules import c03 as _c03
             run.guard('veto takes', _c03.veto_takes, run, F, 'C04.f')
@@ -220,6 +233,7 @@ def run(run):
     run.floor('C04.c', 100)
     run.floor('C04.d', 30)
     run.floor('C04.f', 4)
+    run.floor('C04.g', 8)
     from gen import static_units as _su
     run.guard('configuration setters', _su.report, run, 'C04.e', _su.config_unit('C04.e'))      # the configured value survives every order of the setters
     run.guard('configuration setters', _su.report, run, 'C04.e', _su.config_unit('C04.e', plans=False))      # ... with and without the plan feature
